@@ -280,13 +280,34 @@ def run_case(case):
             seq.append(f"{a}.{attr}={b}.{attr}")
         elif r < 0.76:
             C["cross_system_attempts"] += 1
-            kind = rnd.choice(["job.server", "system.append", "up.uj", "step.jobs", "up.network"])
+            kind = rnd.choice(["job.server", "system.append", "up.uj", "step.jobs", "up.network", "indirect_share", "indirect_share"])
             inA = reachable(h.spec)       # only objects that belong to system A: linking an orphan to B is legitimate
             pick = lambda cls: [n for n in names_of(h.spec, cls) if n in inA]
             if (kind == "job.server" and not pick("Job")) or (kind == "step.jobs" and not pick("UsageJourneyStep")):
                 kind = "system.append"
             try:
-                if kind == "job.server":
+                if kind == "indirect_share":
+                    # a free usage pattern (in no system) that reuses a device / the country / a job-less step of system A joins system B:
+                    # the shared object would belong to two systems although no link to A or B is assigned directly
+                    k_ = len([x for x in allobjs if x.startswith("X_")])
+                    a_up = rnd.choice(pick("UsagePattern"))
+                    shared_dev = h.objs[h.spec["objects"][a_up]["params"]["devices"][1][0]]
+                    shared_cty = h.objs[h.spec["objects"][a_up]["params"]["country"][1]]
+                    st_ = E.UsageJourneyStep(f"X_s{k_}", E.SourceValue(2 * E.u.min), [])
+                    uj_ = E.UsageJourney(f"X_uj{k_}", [st_])
+                    nw_ = E.Network(f"X_n{k_}", E.SourceValue(0.07 * E.u("kWh/GB")))
+                    variant = rnd.choice(["device", "country"])
+                    dv_ = shared_dev if variant == "device" else E.Device.laptop(f"X_d{k_}")
+                    ct_ = shared_cty if variant == "country" else objs_b["B_c1"]
+                    up_ = E.UsagePattern(f"X_up{k_}", uj_, [dv_], nw_, ct_, E.create_source_hourly_values_from_list([3, 1, 4], __import__("datetime").datetime(2025, 1, 1)))
+                    for o_ in (st_, uj_, nw_, up_) + ((dv_,) if variant != "device" else ()):
+                        allobjs[o_.name] = o_
+                    m_ = rnd.choice(["append", "iadd", "assign"])
+                    bs = objs_b["B_system"]
+                    if m_ == "append": bs.usage_patterns.append(up_)
+                    elif m_ == "iadd": bs.usage_patterns += [up_]
+                    else: bs.usage_patterns = list(bs.usage_patterns) + [up_]
+                elif kind == "job.server":
                     j = rnd.choice(pick("Job")); h.objs[j].server = objs_b["B_srv1"]
                 elif kind == "system.append":
                     h.system.usage_patterns.append(objs_b["B_up1"])
